@@ -7,6 +7,8 @@ mod c02;
 mod c03;
 mod c07;
 mod c11;
+mod schema;
+mod c05;
 
 use std::collections::HashMap;
 
@@ -53,6 +55,7 @@ fn main() {
         "c03" => c03::run(&args),
         "c07" => c07::run(&args),
         "c11" => c11::run(&args),
+        "c05" => c05::run(&args),
         other => {
             eprintln!("unknown command {other}");
             2
